@@ -73,8 +73,8 @@ def select(env, cfg, prog, fid):
     """Prepend the field selection only when the runner has another field active."""
     ctx = fields(env, cfg)
     r = env.runner(cfg)
-    key = (id(r), r.starts)
-    if ctx["cur"] != (key, fid) or r.proc is None or r.ncases + 1 >= r.recycle:
+    key = r.epoch()
+    if ctx["cur"] != (key, fid):
         prog.call("fp_param_set", fid)
         ctx["cur"] = (key, fid)
         return 1
